@@ -24,6 +24,7 @@ import (
 
 func init() {
 	vHarnesses["VerifH_C10_level"] = VerifH_C10_level
+	vHarnesses["VerifH_C10_level_volume"] = VerifH_C10_level_volume
 }
 
 var c10lDB = &c10Store{}
@@ -165,4 +166,9 @@ func c10lOpen() kvi.KVInterface {
 // answers like the sorted-map model.
 func VerifH_C10_level() {
 	c10Run(c10lOpen(), "level")
+}
+
+// VerifH_C10_level_volume: DeletePrefix over key counts around its block size.
+func VerifH_C10_level_volume() {
+	c10Volume(c10lOpen(), "level")
 }
